@@ -512,6 +512,47 @@ fn dump_serde() {
     println!("serde\tunavailable");
 }
 
+/// Bounded-exhaustive tie: `enum <spec> <shard> <nshards>`.  Each spec line `E <maxlen> <dirs> <cp,cp,...>` stands
+/// for EVERY string of length 1..=maxlen over the listed characters, under the base directions listed in <dirs>
+/// (a = auto, 0 = LTR, 1 = RTL).  One output line per (string, direction): the paragraph levels and the UTF-8 per-byte levels
+/// of BidiInfo, or PANIC.  The OCaml driver enumerates the same strings in the same order and compares.
+fn enum_levels(spec: &str, shard: usize, nshards: usize) {
+    let out = std::io::stdout();
+    let mut w = BufWriter::with_capacity(1 << 20, out.lock());
+    let text = std::fs::read_to_string(spec).expect("spec file");
+    let mut counter: usize = 0;
+    for line in text.lines() {
+        let f: Vec<&str> = line.split_whitespace().collect();
+        if f.len() != 4 || f[0] != "E" { continue; }
+        let maxlen: usize = f[1].parse().unwrap();
+        let dirs: Vec<char> = f[2].chars().collect();
+        let alpha: Vec<char> = f[3].split(',').map(|h| char::from_u32(u32::from_str_radix(h, 16).unwrap()).unwrap()).collect();
+        let n = alpha.len();
+        for len in 1..=maxlen {
+            let total = n.pow(len as u32);
+            for code in 0..total {
+                counter += 1;
+                if counter % nshards != shard { continue; }
+                let mut c = code;
+                let mut s = String::new();
+                for _ in 0..len { s.push(alpha[c % n]); c /= n; }
+                for d in &dirs {
+                    let lvl = match d { 'a' => None, '0' => Some(Level::ltr()), _ => Some(Level::rtl()) };
+                    let r = guard(|| {
+                        let bi = unicode_bidi::BidiInfo::new(&s, lvl);
+                        let mut o = String::with_capacity(2 * s.len() + 8);
+                        for p in &bi.paragraphs { o.push_str(&format!("{:x}.", p.level.number())); }
+                        o.push('|');
+                        for l in &bi.levels { o.push_str(&format!("{:x}.", l.number())); }
+                        o
+                    });
+                    writeln!(w, "{}", r.unwrap_or_else(|| "PANIC".to_string())).unwrap();
+                }
+            }
+        }
+    }
+}
+
 fn main() {
     std::panic::set_hook(Box::new(|_| {}));
     let args: Vec<String> = std::env::args().collect();
@@ -530,6 +571,7 @@ fn main() {
                 writeln!(w, "{}", r).unwrap();
             }
         }
+        Some("enum") => enum_levels(&args[2], args[3].parse().unwrap(), args[4].parse().unwrap()),
         Some("tables") => dump_tables(),
         Some("levels") => dump_levels(),
         Some("serde") => dump_serde(),
